@@ -80,3 +80,135 @@ theorem foldl_addTo (xs : List Pkt) (n : Pkt) (hne : ∀ x ∈ xs, x.payload.isE
     rw [h1]; simp [List.append_assoc]
 
 end XMT.Frag
+
+namespace XMT.Frag
+open XMT XMT.Packet XMT.Flag
+
+section
+variable {F : Nat} {p : Pkt} {g m : Nat} (C : Ctx F p g m)
+include C
+
+/-- indices whose fragment carries payload -/
+def neIdx (F : Nat) (p : Pkt) (i : Nat) : Bool := !(win F p i).isEmpty
+
+omit C in
+theorem nonEmpty_fr (i : Nat) : nonEmpty (fr F p g m i) = neIdx F p i := rfl
+
+omit C in
+theorem filter_map_fr (I : List Nat) :
+    (I.map (fr F p g m)).filter nonEmpty = (I.filter (neIdx F p)).map (fr F p g m) := by
+  rw [List.filter_map]; rfl
+
+theorem range_filter_head : ∃ K', (List.range m).filter (neIdx F p) = 0 :: K' := by
+  have hm2 := C.m2
+  have h0 : neIdx F p 0 = true := by
+    have := win0_ne C
+    unfold neIdx
+    cases h : win F p 0 with
+    | nil => exact absurd h this
+    | cons _ _ => rfl
+  obtain ⟨k, hk⟩ : ∃ k, m = k + 1 := ⟨m - 1, by omega⟩
+  rw [hk, List.range_succ_eq_map, List.filter_cons_of_pos h0]
+  exact ⟨_, rfl⟩
+
+/-- the stored (non-empty) fragments, sorted, are the non-empty fragments in position order —
+whatever the arrival order was -/
+theorem sort_arrivals (I : List Nat) (hI : I.Perm (List.range m)) :
+    sortByPos ((I.map (fr F p g m)).filter nonEmpty) =
+      ((List.range m).filter (neIdx F p)).map (fr F p g m) := by
+  rw [filter_map_fr]
+  have hperm : ((I.filter (neIdx F p)).map (fr F p g m)).Perm
+      (((List.range m).filter (neIdx F p)).map (fr F p g m)) := (hI.filter _).map _
+  have hmem : ∀ q ∈ ((List.range m).filter (neIdx F p)).map (fr F p g m),
+      ∃ i, i < m ∧ q = fr F p g m i := by
+    intro q hq
+    obtain ⟨i, hi, rfl⟩ := List.mem_map.mp hq
+    exact ⟨i, List.mem_range.mp (List.mem_filter.mp hi).1, rfl⟩
+  apply List.Perm.eq_of_pairwise (le := posLe)
+  · -- antisymmetry on the elements: fragments with equal positions are equal
+    intro a b ha hb hab hba
+    have ha' := ((sortByPos_perm _).trans hperm).subset ha
+    obtain ⟨i, hi, rfl⟩ := hmem a ha'
+    obtain ⟨j, hj, rfl⟩ := hmem b hb
+    obtain ⟨_, _, pi, _, _⟩ := fr_flags C i hi
+    obtain ⟨_, _, pj, _, _⟩ := fr_flags C j hj
+    unfold posLe at hab hba
+    rw [pi, pj] at hab hba
+    have : i = j := by omega
+    rw [this]
+  · exact sortByPos_sorted _
+  · -- the target list is sorted: `range m` is, and position (fr i) = i
+    rw [List.pairwise_map]
+    have hr : (List.range m).Pairwise (· < ·) := List.pairwise_lt_range
+    have hf := hr.filter (neIdx F p)
+    have hmemf : ∀ i ∈ (List.range m).filter (neIdx F p), i < m := fun i hi =>
+      List.mem_range.mp (List.mem_filter.mp hi).1
+    refine List.Pairwise.imp_of_mem ?_ hf
+    intro i j hi hj hij
+    obtain ⟨_, _, pi, _, _⟩ := fr_flags C i (hmemf i hi)
+    obtain ⟨_, _, pj, _, _⟩ := fr_flags C j (hmemf j hj)
+    unfold posLe
+    rw [pi, pj]; omega
+  · exact (sortByPos_perm _).trans hperm
+
+/-- **the reassembled packet is the original** (tags are not carried by fragments) -/
+theorem assemble_perm (I : List Nat) (hI : I.Perm (List.range m)) :
+    assemble (I.map (fr F p g m)) = some { p with tags := [] } := by
+  have hsort := sort_arrivals C I hI
+  obtain ⟨K', hK⟩ := range_filter_head C
+  have hm2 := C.m2
+  unfold assemble
+  rw [hsort, hK, List.map_cons]
+  simp only
+  -- facts about the sorted non-empty fragments
+  have hK'mem : ∀ i ∈ K', i < m ∧ neIdx F p i = true := by
+    intro i hi
+    have : i ∈ (List.range m).filter (neIdx F p) := by rw [hK]; exact List.mem_cons_of_mem _ hi
+    exact ⟨List.mem_range.mp (List.mem_filter.mp this).1, (List.mem_filter.mp this).2⟩
+  obtain ⟨_, _, _, b0, _⟩ := fr_flags C 0 (by omega)
+  have hfold := foldl_addTo (K'.map (fr F p g m)) (fr F p g m 0)
+    (by
+      intro x hx
+      obtain ⟨i, hi, rfl⟩ := List.mem_map.mp hx
+      have := (hK'mem i hi).2
+      simpa [neIdx, fr, mkFrag] using this)
+    (by
+      intro x hx
+      obtain ⟨i, hi, rfl⟩ := List.mem_map.mp hx
+      obtain ⟨_, _, _, bi, _⟩ := fr_flags C i (hK'mem i hi).1
+      rw [bi, ← b0]
+      exact or_bits_self _)
+  obtain ⟨h1, h2, h3, h4, h5, h6⟩ := hfold
+  -- payload: the windows of the non-empty fragments concatenate to the payload
+  have hpay : (fr F p g m 0).payload ++ ((K'.map (fr F p g m)).map (·.payload)).flatten = p.payload := by
+    have e1 : (fr F p g m 0).payload ++ ((K'.map (fr F p g m)).map (·.payload)).flatten
+        = (((0 :: K').map (win F p))).flatten := by
+      simp [List.map_map, Function.comp_def, fr, mkFrag]
+    rw [e1, ← hK]
+    have e2 : ((List.range m).filter (neIdx F p)).map (win F p)
+        = ((List.range m).map (win F p)).filter (fun b => !b.isEmpty) := by
+      rw [List.filter_map]; rfl
+    rw [e2, flatten_filter_ne]
+    have := windows_flatten F p.payload m
+    unfold win
+    rw [this, List.take_of_length_le]
+    rw [C.hm]; exact fragCount_covers F C.hF p
+  -- flags: FlagFrag set by the setters, cleared again
+  have hflags : Flag.clear (fr F p g m 0).flags = p.flags := by
+    unfold Flag.clear
+    show bits (fr F p g m 0).flags ^^^ flagFrag = p.flags
+    rw [b0]
+    have := C.flEven
+    rw [show flagFrag = 1 from rfl, xor_one_of_odd _ (by omega)]
+    omega
+  congr 1
+  cases p with
+  | mk id job flags tags dev payload =>
+    simp only [Packet.Packet.mk.injEq]
+    simp only at h1 h2 h3 h4 h5 h6 hpay hflags
+    refine ⟨h3, h4, ?_, h6, h5, ?_⟩
+    · rw [h2]; exact hflags
+    · rw [h1]; exact hpay
+
+end
+end XMT.Frag
